@@ -319,6 +319,25 @@ def run_recover(case):
                     data = b'?'
                 recs.append((rec.oid, data, spans))
             orig[t.tid] = (t, recs)
+        def walks_to_end(damaged, t):
+            """Do the data records of transaction t still add up in the
+            damaged file (then fsrecover cannot see the damage and copies
+            what it finds)?"""
+            import struct
+            pos = t.recs[0].pos if t.recs else t.end - 8
+            tend = t.end - 8
+            while pos < tend:
+                h = damaged[pos:pos + 42]
+                if len(h) < 42:
+                    return False
+                _o, _t, _prev, tloc, vlen, plen = struct.unpack(
+                    '>8s8sQQHQ', h)
+                dlen = 42 + (plen or 8)
+                if vlen or tloc != t.pos or pos + dlen > tend:
+                    return False
+                pos += dlen
+            return pos == tend
+
         def n_of(damaged, tpos, oid):
             """Records of `oid` the transaction at tpos holds in the
             damaged file (record positions as in the original)."""
@@ -411,7 +430,8 @@ def run_recover(case):
                     continue
                 if t.pos < dend and t.end > dstart and t.pos + 23 <= dstart \
                         and g[0].status == t.status \
-                        and len(g[1]) < len(recs):
+                        and len(g[1]) < len(recs) \
+                        and not walks_to_end(data, t):
                     viol.append(('recover-outputs-partial-transaction',
                                  '%s: transaction %r is damaged behind its '
                                  'header; it is output with %d of its %d '
